@@ -32,8 +32,14 @@ type w1Contribution struct {
 	min, max, sum, sumsq float64
 	hasUniq              bool
 	centroidCount        float64
-	host                 string // host credited for this contribution (explicit max host or the sender)
+	// hosts credited for this contribution as the schema restores them: max host = explicit int or string
+	// tag, else the sender; min host and max-counter host = explicit, else the max host. Notation w1HostRep.
+	maxHost, minHost, cntHost string
 }
+
+// w1HostRep: a host argument as (int tag, string tag), the two forms the protocol and the stored
+// argMin/argMax states carry.
+func w1HostRep(i int32, s string) string { return fmt.Sprintf("%d:%q", i, s) }
 
 type w1Payload struct {
 	raw       string
@@ -43,9 +49,10 @@ type w1Payload struct {
 	decodeErr string
 
 	// positions in the request's row list (all rows, workload or not), for the handler-pause schedule
-	rows         int
-	markerIdx    int // index of the marker row
-	lastWorkload int // index of the last workload row
+	rows          int
+	markerIdx     int // index of the marker row
+	lastWorkload  int // index of the last workload row
+	firstRejected int // index of the first row the aggregator's counter validation rejects (-1: none)
 }
 
 type w1Fail struct {
@@ -193,7 +200,7 @@ func (w *w1World) payloadLocked(inst *w1Inst, args *tlstatshouse.SendSourceBucke
 		return p
 	}
 	sender := string(args.Header.HostName)
-	p.rows, p.markerIdx, p.lastWorkload = len(b.Metrics), -1, -1
+	p.rows, p.markerIdx, p.lastWorkload, p.firstRejected = len(b.Metrics), -1, -1, -1
 	for i := range b.Metrics {
 		item := &b.Metrics[i]
 		if !w1IsWorkloadMetric(item.Metric) {
@@ -211,10 +218,28 @@ func (w *w1World) payloadLocked(inst *w1Inst, args *tlstatshouse.SendSourceBucke
 		key := w1KeyString(ts, item.Metric, item.Keys, item.Skeys)
 		v := &item.Tail
 		fm := item.FieldsMask
-		c := &w1Contribution{host: sender}
+		c := &w1Contribution{}
 		c.count = v.Counter
 		if v.IsSetCounterEq1(fm) {
 			c.count = 1
+		}
+		if w1CounterRejected(c.count) {
+			// a row the aggregator's validation rejects (only the raw senders produce them) contributes nothing
+			if p.firstRejected < 0 {
+				p.firstRejected = i
+			}
+			continue
+		}
+		c.maxHost = w1HostRep(0, sender)
+		if v.IsSetMaxHostTag(fm) || v.IsSetMaxHostStag(fm) {
+			c.maxHost = w1HostRep(v.MaxHostTag, string(v.MaxHostStag))
+		}
+		c.minHost, c.cntHost = c.maxHost, c.maxHost
+		if v.IsSetMinHostTag(fm) || v.IsSetMinHostStag(fm) {
+			c.minHost = w1HostRep(v.MinHostTag, string(v.MinHostStag))
+		}
+		if v.IsSetMaxCounterHostTag(fm) || v.IsSetMaxCounterHostStag(fm) {
+			c.cntHost = w1HostRep(v.MaxCounterHostTag, string(v.MaxCounterHostStag))
 		}
 		if v.IsSetValueSet(fm) {
 			c.valueSet = true
@@ -231,9 +256,6 @@ func (w *w1World) payloadLocked(inst *w1Inst, args *tlstatshouse.SendSourceBucke
 		}
 		if v.IsSetImplicitCentroid(fm) { // "centroid should be restored from the single simple value"
 			c.centroidCount += c.count
-		}
-		if v.IsSetMaxHostStag(fm) {
-			c.host = string(v.MaxHostStag)
 		}
 		if p.items[key] != nil {
 			p.decodeErr = "key twice in one agent bucket: " + key
@@ -585,7 +607,7 @@ func (o *w1Oracle) checkBody(w *w1World, rec *w1Rec) (fails []w1Fail) {
 	type exp struct {
 		count, min, max, sum, sumsq, centroids float64
 		valueSet, hasUniq                      bool
-		hosts                                  map[string]bool
+		maxHosts, minHosts, cntHosts           map[string]bool
 		uniq                                   map[int64]bool
 		metric                                 int32
 		buckets                                map[string]bool // aggregator buckets of this replica process that received a contribution
@@ -622,7 +644,7 @@ func (o *w1Oracle) checkBody(w *w1World, rec *w1Rec) (fails []w1Fail) {
 		for k, c := range p.items {
 			e := want[k]
 			if e == nil {
-				e = &exp{hosts: map[string]bool{}, uniq: map[int64]bool{}, buckets: map[string]bool{}}
+				e = &exp{maxHosts: map[string]bool{}, minHosts: map[string]bool{}, cntHosts: map[string]bool{}, uniq: map[int64]bool{}, buckets: map[string]bool{}}
 				want[k] = e
 			}
 			if len(filed[at]) == 0 {
@@ -644,7 +666,10 @@ func (o *w1Oracle) checkBody(w *w1World, rec *w1Rec) (fails []w1Fail) {
 				e.sumsq += n * c.sumsq
 			}
 			e.centroids += n * c.centroidCount
-			e.hosts[c.host] = true
+			e.cntHosts[c.cntHost] = true
+			if c.valueSet {
+				e.maxHosts[c.maxHost], e.minHosts[c.minHost] = true, true
+			}
 			if c.hasUniq {
 				e.hasUniq = true
 				vals, ok := o.uniq[w1UniqKey{at.a, k}]
@@ -732,15 +757,15 @@ func (o *w1Oracle) checkBody(w *w1World, rec *w1Rec) (fails []w1Fail) {
 		}
 		for _, row := range rs {
 			if e.valueSet {
-				if h := row.minHost.AsString; !e.hosts[h] || row.minHost.AsInt32 != 0 {
-					fail("hosts", name+":min_host", "row %s: min_host decodes to %q/%d, contributing hosts are %v", k, h, row.minHost.AsInt32, w1SortedSet(e.hosts))
+				if h := w1HostRep(row.minHost.AsInt32, row.minHost.AsString); !e.minHosts[h] {
+					fail("hosts", name+":min_host", "row %s: min_host decodes to %s, the min hosts of the contributions are %v", k, h, w1SortedSet(e.minHosts))
 				}
-				if h := row.maxHost.AsString; !e.hosts[h] || row.maxHost.AsInt32 != 0 {
-					fail("hosts", name+":max_host", "row %s: max_host decodes to %q/%d, contributing hosts are %v", k, h, row.maxHost.AsInt32, w1SortedSet(e.hosts))
+				if h := w1HostRep(row.maxHost.AsInt32, row.maxHost.AsString); !e.maxHosts[h] {
+					fail("hosts", name+":max_host", "row %s: max_host decodes to %s, the max hosts of the contributions are %v", k, h, w1SortedSet(e.maxHosts))
 				}
 			}
-			if h := row.maxCountHost.AsString; !e.hosts[h] || row.maxCountHost.AsInt32 != 0 {
-				fail("hosts", name+":max_count_host", "row %s: max_count_host decodes to %q/%d, contributing hosts are %v", k, h, row.maxCountHost.AsInt32, w1SortedSet(e.hosts))
+			if h := w1HostRep(row.maxCountHost.AsInt32, row.maxCountHost.AsString); !e.cntHosts[h] {
+				fail("hosts", name+":max_count_host", "row %s: max_count_host decodes to %s, the max-counter hosts of the contributions are %v", k, h, w1SortedSet(e.cntHosts))
 			}
 		}
 		if e.hasUniq {
